@@ -54,7 +54,7 @@ SIZE = ['vpH_size_L_MsgHeartbeatResp', 'vpH_size_L_MsgProp', 'vpH_size_L_MsgAppR
 TRACK = ['vpH_t_InflightsAdd_3', 'vpH_t_InflightsFree_3', 'vpH_t_InflightsMisc_3', 'vpH_t_ProgressOps']
 TRACK_T = ['vpH_t_InflightsAdd_4', 'vpH_t_InflightsFree_4', 'vpH_t_InflightsMisc_4', 'vpH_t_ProgressOps']
 DET = ['vpH_det_F_MsgHup_bigids', 'vpH_det_L_MsgBeat_bigids', 'vpH_det_F_MsgVote', 'vpH_det_F_MsgApp', 'vpH_det_F_MsgHup', 'vpH_det_C_MsgVoteResp', 'vpH_det_P_MsgPreVoteResp', 'vpH_det_L_MsgHeartbeatResp', 'vpH_det_L_MsgProp', 'vpH_det_L_MsgBeat', 'vpH_det_L_MsgCheckQuorum', 'vpH_det_L_MsgReadIndex']
-DET_T = DET + ['vpH_det_F_MsgSnap', 'vpH_det_L_MsgAppResp']
+DET_T = DET + ['vpH_det_F_MsgSnap', 'vpH_det_L_MsgAppResp', 'vpH_detAll_F_MsgHup', 'vpH_detAll_C_MsgVoteResp', 'vpH_detAll_L_MsgBeat', 'vpH_detAll_L_MsgCheckQuorum', 'vpH_detAll_L_MsgHeartbeatResp', 'vpH_detAll_L_MsgProp']
 
 ALL_STEP = VOTE + VRESP + HUP + HB + APP + SNAP + PROP + LEAD + LEAD_HBR + SMALL
 # quick-tier stand-ins for the three largest leader cells
